@@ -26,6 +26,12 @@ COMMON = {"ast_type", "location", "update", "unpool", "items", "keys", "values",
 FIELD_TRIAGE = {
     ("inline:InlineTranslator.inline_body_aggregate", "replace_cond.atom.symbol"): "replace_cond was selected because literal_predicate(replace_cond) yields the helper predicate and is a positive Literal: its atom is a SymbolicAtom over a Function",
     ("inline:InlineTranslator.inline_body_aggregate", "replace_cond.atom.symbol.arguments"): "see replace_cond.atom.symbol",
+    # (guard, reason): the justification holds only where the guard dominates the access
+    ("inline:InlineTranslator.is_connected_to_agregates", "blit.atom"): ("(orig, blit) in g.nodes", "nodes of g are (statement, literal) pairs added by replace_single_rule_for_body with the literal get_body_lit returned, and get_body_lit returns only literals with is_predicate(blit)"),
+    ("inline:InlineTranslator.is_connected_to_agregates", "blit.atom.symbol"): ("(orig, blit) in g.nodes", "see blit.atom: is_predicate means a SymbolicAtom over a Function"),
+    ("inline:InlineTranslator.is_connected_to_agregates", "blit.atom.symbol.arguments"): ("(orig, blit) in g.nodes", "see blit.atom.symbol"),
+    ("inline:InlineTranslator.get_body_lit", "stm.body[0].sign"): ("not len(stm.body) > 1", "stm passed is_single: it contains exactly one BodyAggregate, which can only sit in a body Literal (a conditional literal cannot hold an aggregate); with at most one body element that element is the aggregate literal"),
+    ("inline:InlineTranslator.inline_literal", "newlit.atom"): ("lit.sign == Sign.Negation", "a negated literal is only returned by get_body_lit when the single rule's body is its one aggregate literal (see get_body_lit: stm.body[0].sign)"),
 }
 
 # asserts / raises that cannot be discharged mechanically, each read and justified: (function, condition text) -> reason
@@ -230,6 +236,8 @@ def r_kinds(ck: Checker) -> None:
                 continue
             key = (func.short, text)
             reason = moved_lookup(FIELD_TRIAGE, key[0], key[1], _live(ck))
+            if isinstance(reason, tuple):
+                reason = reason[1] + f" [under `{reason[0]}`]" if it.holds(node, reason[0]) else None
             if reason is not None:
                 ck.add(f"field {text}", True, func, node, f"base may be {bad[0]}, {bad[1]} lack `.{node.attr}` - triaged: {reason}", "", rule="C03.KIND.field")  # type: ignore[attr-defined]
                 continue
